@@ -192,7 +192,7 @@ func runCase(t pbt.TB, c Case) {
 			switch op.Kind {
 			case "putV", "putE", "delV", "delE", "bulk":
 				wr = true
-			case "addGraph", "delGraph", "addSchema", "getSchema", "submit", "getJob":
+			case "addGraph", "delGraph", "addSchema", "getSchema", "submit", "getJob", "addSchemaOwn", "getSchemaOwn", "addIndex", "delIndex", "listJobs", "searchJobs", "resumeJob":
 				shared = true
 			}
 		}
@@ -360,6 +360,56 @@ func runCase(t pbt.TB, c Case) {
 						wk.Srv.Edit.AddSchema(cctx, &gripql.Graph{Graph: g, Vertices: []*gripql.Vertex{{Gid: "L", Label: "Vertex"}}})
 					case "getSchema":
 						wk.Srv.Query.GetSchema(cctx, &gripql.GraphID{Graph: g})
+					case "addSchemaOwn": // a schema on the session's private graph: dropped with it by delGraph
+						wk.Srv.Edit.AddSchema(cctx, &gripql.Graph{Graph: own, Vertices: []*gripql.Vertex{{Gid: "L", Label: "Vertex"}}})
+					case "getSchemaOwn":
+						wk.Srv.Query.GetSchema(cctx, &gripql.GraphID{Graph: own})
+					case "getMapping":
+						wk.Srv.Query.GetMapping(cctx, &gripql.GraphID{Graph: g})
+					case "getV":
+						wk.Srv.Query.GetVertex(cctx, &gripql.ElementID{Graph: g, Id: op.ID})
+					case "getE":
+						wk.Srv.Query.GetEdge(cctx, &gripql.ElementID{Graph: g, Id: fmt.Sprintf("pe%d-%s", int(op.Val)%6, op.ID)})
+					case "addIndex":
+						wk.Srv.Edit.AddIndex(cctx, &gripql.IndexID{Graph: g, Label: "L", Field: []string{"val", "by"}[int(op.Val)%2]})
+					case "delIndex":
+						wk.Srv.Edit.DeleteIndex(cctx, &gripql.IndexID{Graph: g, Label: "L", Field: []string{"val", "by"}[int(op.Val)%2]})
+					case "listIndices":
+						wk.Srv.Query.ListIndices(cctx, &gripql.GraphID{Graph: g})
+					case "listTables":
+						if s, err := wk.Srv.Query.ListTables(cctx, &gripql.Empty{}); err == nil {
+							for {
+								if _, err := s.Recv(); err != nil {
+									break
+								}
+							}
+						}
+					case "listJobs":
+						if s, err := wk.Srv.Job.ListJobs(cctx, &gripql.GraphID{Graph: g}); err == nil {
+							for {
+								if _, err := s.Recv(); err != nil {
+									break
+								}
+							}
+						}
+					case "searchJobs":
+						if s, err := wk.Srv.Job.SearchJobs(cctx, &gripql.GraphQuery{Graph: g, Query: gripql.NewQuery().V().Statements}); err == nil {
+							for {
+								if _, err := s.Recv(); err != nil {
+									break
+								}
+							}
+						}
+					case "resumeJob":
+						for _, j := range jobs {
+							if s, err := wk.Srv.Job.ResumeJob(cctx, &gripql.ExtendQuery{Graph: g, SrcId: j, Query: gripql.NewQuery().Count().Statements}); err == nil {
+								for {
+									if _, err := s.Recv(); err != nil {
+										break
+									}
+								}
+							}
+						}
 					case "listGraphs":
 						wk.Srv.Query.ListGraphs(cctx, &gripql.Empty{})
 					case "listLabels":
@@ -506,7 +556,9 @@ func TestReplay(t *testing.T) {
 
 func genOp(rt *rapid.T, lbl string) Op {
 	k := rapid.SampledFrom([]string{"putV", "putV", "putV", "putP", "putP", "delV", "putE", "delE", "bulk", "query", "query", "count",
-		"addGraph", "delGraph", "addSchema", "getSchema", "listGraphs", "listLabels", "timestamp", "submit", "getJob", "viewJob", "delJob"}).Draw(rt, lbl+".kind")
+		"addGraph", "delGraph", "addSchema", "getSchema", "listGraphs", "listLabels", "timestamp", "submit", "getJob", "viewJob", "delJob",
+		"addGraph", "delGraph", "addSchemaOwn", "addSchemaOwn", "getSchemaOwn", "getMapping", "getV", "getE", "addIndex", "delIndex", "listIndices", "listTables",
+		"listJobs", "searchJobs", "resumeJob"}).Draw(rt, lbl+".kind")
 	op := Op{Kind: k}
 	op.ID = rapid.SampledFrom([]string{"a", "b", "c"}).Draw(rt, lbl+".id")
 	op.Val = float64(rapid.IntRange(1, 1000).Draw(rt, lbl+".val"))
@@ -520,15 +572,34 @@ func genOp(rt *rapid.T, lbl string) Op {
 	return op
 }
 
+var cycles = [][]string{
+	{"addGraph", "addSchemaOwn", "getSchemaOwn", "delGraph"},
+	{"submit", "getJob", "listJobs", "viewJob", "resumeJob", "searchJobs", "delJob"},
+	{"addIndex", "putV", "listIndices", "delIndex"},
+}
+
 func TestSessions(t *testing.T) {
 	pbt.Check(t, 60, 1500, func(rt *rapid.T) {
 		ns := rapid.IntRange(2, 6).Draw(rt, "sessions")
 		c := Case{Repeat: pbt.Pick(2, 3)}
 		for s := 0; s < ns; s++ {
 			n := rapid.IntRange(3, 14).Draw(rt, fmt.Sprintf("s%d.len", s))
-			ops := make([]Op, n)
-			for i := range ops {
-				ops[i] = genOp(rt, fmt.Sprintf("s%d.op%d", s, i))
+			var ops []Op
+			for i := 0; i < n; i++ {
+				lbl := fmt.Sprintf("s%d.op%d", s, i)
+				// one in four steps is a whole life cycle of a shared server resource (a
+				// private graph with its schema, a job, an index) rather than a single call:
+				// the states that matter (a graph that has a stored schema is dropped, a job is
+				// resumed and deleted) need their calls in order
+				if cyc := rapid.IntRange(0, 11).Draw(rt, lbl+".cycle"); cyc < len(cycles) {
+					for j, k := range cycles[cyc] {
+						op := genOp(rt, fmt.Sprintf("%s.%d", lbl, j))
+						op.Kind = k
+						ops = append(ops, op)
+					}
+					continue
+				}
+				ops = append(ops, genOp(rt, lbl))
 			}
 			c.Sessions = append(c.Sessions, ops)
 		}
